@@ -21,9 +21,13 @@ from common import *  # noqa
 
 TIE = os.path.join(COQ, "Tie")
 ORDER = ["side_partial_cmp", "ub_partial_cmp", "ub_matches", "ub_try_into_range", "complement_std_range",
-         "ub_new", "ub_from_range", "ub_unpack", "ub_complement"]
+         "ub_new", "ub_from_range", "ub_unpack", "ub_complement",
+         "ubl_bounds_only", "ubl_is_sortable", "ubl_is_sorted", "ubl_has_negative_indices", "ubl_is_forward_only"]
 DEPS = {"ub_partial_cmp": ["side_partial_cmp"], "ub_from_range": ["ub_new"], "ub_unpack": ["ub_new", "ub_try_into_range"],
-        "ub_complement": ["ub_try_into_range", "complement_std_range", "ub_from_range", "ub_new"]}
+        "ub_complement": ["ub_try_into_range", "complement_std_range", "ub_from_range", "ub_new"],
+        "ubl_is_sortable": ["ubl_bounds_only"], "ubl_is_sorted": ["ubl_bounds_only", "ub_partial_cmp", "side_partial_cmp"],
+        "ubl_has_negative_indices": ["ubl_bounds_only"],
+        "ubl_is_forward_only": ["ubl_bounds_only", "ubl_is_sortable", "ubl_is_sorted", "ubl_has_negative_indices", "ub_partial_cmp", "side_partial_cmp"]}
 # which properties' theorems rest on which translated function
 USES = {
     "ub_try_into_range": ["C06", "C09", "C12", "C13", "C15"],
@@ -35,6 +39,11 @@ USES = {
     "ub_from_range": ["C15"],
     "ub_unpack": ["C07", "C08", "C13"],
     "ub_complement": ["C15"],
+    "ubl_bounds_only": ["C02", "C05", "C19"],
+    "ubl_is_sortable": ["C02", "C05", "C19"],
+    "ubl_is_sorted": ["C03", "C05", "C19"],
+    "ubl_has_negative_indices": ["C05", "C19"],
+    "ubl_is_forward_only": ["C03", "C05", "C19"],
 }
 LEMMA = {n: "tie_" + n for n in ORDER}
 
